@@ -12,14 +12,17 @@ try:
 except Exception:
     CHECKS = {}
 sweep = {}
-sp = os.path.join(V, 'sweeps', 'thorough_last.txt')
-if os.path.exists(sp):
-    for ln in open(sp):
-        m = re.match(r'(C\d\d) rc=(\d+) (\d+)s .*?(HELD|VIOLATED) property=\S+ tier=thorough seed=(\d+) evaluations=(\d+) distinct=(\d+)', ln)
-        if m:
-            sweep[m.group(1)] = m.groups()
+older = set()
+for fname, is_old in (('thorough_third_partial.txt', True), ('thorough_last.txt', False)):
+    sp = os.path.join(V, 'sweeps', fname)
+    if os.path.exists(sp):
+        for ln in open(sp):
+            m = re.match(r'(C\d\d) rc=(\d+) (\d+)s .*?(HELD|VIOLATED) property=\S+ tier=thorough seed=(\d+) evaluations=(\d+) distinct=(\d+)', ln)
+            if m:
+                sweep[m.group(1)] = m.groups()
+                (older.add if is_old else older.discard)(m.group(1))
 out.append('### 12.0 Checks as built (measured)\n')
-out.append('Quick numbers are those of the committed `evidence/<id>.json`; thorough numbers come from the last full sweep (`sweeps/thorough_last.txt`, one run per property, 16 cores, warm build cache).\n')
+out.append('Quick numbers are those of the committed `evidence/<id>.json`; thorough numbers come from the last sweep (`sweeps/thorough_last.txt`, one run per property, warm build cache; parts of it ran while seeded-change runs, the mutation self-test and a multi-seed soak shared the 16 cores, so walls are not comparable between rows).\n')
 out.append('| property | sanitizer builds | quick: evaluations / distinct / wall | thorough: verdict, evaluations / distinct / wall |\n|---|---|---|---|')
 for pid in sorted(k for k in CHECKS if re.fullmatch(r'C\d\d', k)):
     ep = os.path.join(V, 'evidence', pid + '.json')
@@ -36,7 +39,7 @@ for pid in sorted(k for k in CHECKS if re.fullmatch(r'C\d\d', k)):
     t = '-'
     if pid in sweep:
         g = sweep[pid]
-        t = '%s, %s / %s / %ss' % (g[3], g[5], g[6], g[2])
+        t = '%s, %s / %s / %ss' % (g[3], g[5], g[6], g[2]) + (' (sweep of 07:11-10:40 UTC, before the additions of rounds 11-14; the run with the final drivers was cut short, see below)' if pid in older else '')
     out.append('| %s | %s | %s | %s |' % (pid, fl, q, t))
 out.append('')
 out.append('### 12.1 Defects of managarm/frigg found by the monitors\n')
